@@ -48,18 +48,18 @@ func (c *Ctx) bigInt(v *big.Int) *Term {
 }
 
 // IntToBV converts a mathematical integer to a w-bit vector (two's complement, wrapping).
+// Non-literal conversions are uninterpreted functions i2b<w> / b2i<w>{s,u} constrained by
+// the round-trip, range and order facts below (all true of the real conversions); the
+// solvers' built-in int2bv/bv2nat are decided too poorly to be used inside quantified VCs.
 func (c *Ctx) IntToBV(a *Term, w int) *Term {
 	if a.IsLit() {
 		return c.BVLit(a.Val, w)
 	}
-	// int2bv(bv2int-bridge(x)) of the same width cancels
-	if a.Op == "sbv2int" && a.Args[0].Sort.W == w {
+	if a.Op == "app" && (a.Name == "b2i"+itoa(w)+"s" || a.Name == "b2i"+itoa(w)+"u") {
 		return a.Args[0]
 	}
-	if a.Op == "bv2nat" && a.Args[0].Sort.W == w {
-		return a.Args[0]
-	}
-	return c.intern(&Term{Op: "int2bv", Name: itoa(w), Args: []*Term{a}, Sort: BV(w)})
+	c.bridgeAxioms(w)
+	return c.App(c.Funcs["i2b"+itoa(w)], a)
 }
 
 // BVToInt converts a bit-vector to a mathematical integer (signed or unsigned reading).
@@ -70,10 +70,38 @@ func (c *Ctx) BVToInt(a *Term, signedSrc bool) *Term {
 		}
 		return c.bigInt(a.Val)
 	}
+	w := a.Sort.W
+	c.bridgeAxioms(w)
 	if signedSrc {
-		return c.intern(&Term{Op: "sbv2int", Args: []*Term{a}, Sort: IntSort})
+		return c.App(c.Funcs["b2i"+itoa(w)+"s"], a)
 	}
-	return c.intern(&Term{Op: "bv2nat", Args: []*Term{a}, Sort: IntSort})
+	return c.App(c.Funcs["b2i"+itoa(w)+"u"], a)
+}
+
+func (c *Ctx) bridgeAxioms(w int) {
+	ws := itoa(w)
+	if _, ok := c.Funcs["i2b"+ws]; ok {
+		return
+	}
+	i2b := c.DeclareFun("i2b"+ws, []*Sort{IntSort}, BV(w))
+	b2s := c.DeclareFun("b2i"+ws+"s", []*Sort{BV(w)}, IntSort)
+	b2u := c.DeclareFun("b2i"+ws+"u", []*Sort{BV(w)}, IntSort)
+	d, b, b2 := c.Var("d", IntSort), c.Var("b", BV(w)), c.Var("b2", BV(w))
+	half, full := c.bigInt(pow2(uint(w-1))), c.bigInt(pow2(uint(w)))
+	negHalf := c.IntBin("-", c.IntLit(0), half)
+	zero := c.IntLit(0)
+	c.Axioms["i2b"+ws] = []*Term{
+		c.Forall([]*Term{d}, c.Implies(c.And(c.IntCmp(">=", d, negHalf), c.IntCmp("<", d, half)), c.Eq(c.App(b2s, c.App(i2b, d)), d)), c.App(i2b, d)),
+		c.Forall([]*Term{d}, c.Implies(c.And(c.IntCmp(">=", d, zero), c.IntCmp("<", d, full)), c.Eq(c.App(b2u, c.App(i2b, d)), d)), c.App(i2b, d)),
+	}
+	c.Axioms["b2i"+ws+"s"] = []*Term{
+		c.Forall([]*Term{b}, c.And(c.Eq(c.App(i2b, c.App(b2s, b)), b), c.IntCmp(">=", c.App(b2s, b), negHalf), c.IntCmp("<", c.App(b2s, b), half)), c.App(b2s, b)),
+		c.intern(&Term{Op: "forall", Args: []*Term{c.Eq(c.IntCmp("<", c.App(b2s, b), c.App(b2s, b2)), c.BVCmp("bvslt", b, b2))}, Vars: []*Term{b, b2}, Pats: []*Term{c.App(b2s, b), c.App(b2s, b2)}, Sort: BoolSort, Name: "multi"}),
+	}
+	c.Axioms["b2i"+ws+"u"] = []*Term{
+		c.Forall([]*Term{b}, c.And(c.Eq(c.App(i2b, c.App(b2u, b)), b), c.IntCmp(">=", c.App(b2u, b), zero), c.IntCmp("<", c.App(b2u, b), full)), c.App(b2u, b)),
+		c.intern(&Term{Op: "forall", Args: []*Term{c.Eq(c.IntCmp("<", c.App(b2u, b), c.App(b2u, b2)), c.BVCmp("bvult", b, b2))}, Vars: []*Term{b, b2}, Pats: []*Term{c.App(b2u, b), c.App(b2u, b2)}, Sort: BoolSort, Name: "multi"}),
+	}
 }
 
 func itoa(n int) string {
